@@ -187,7 +187,19 @@ def spec_case(chk, i):
         problems.append("traits derived although a constituent cannot support them by the documented rules (function pointer with more than "
                         "12 parameters): %s" % hard[:6])
     elif extra:
-        notes.append("derives beyond my specification (not judged): %s" % extra[:4])
+        # derives beyond my specification are judged by rustc: a derive whose constituent does not implement the trait is rejected (E0277)
+        w = write(os.path.join(d, "ext%d.rs" % i), "#![allow(warnings)]\n" + text)
+        rcr, sor, ser, _ = sh(["rustc", "--edition", "2021", "--crate-type", "lib", "--emit=metadata", "-o", os.path.join(d, "ext%d.rmeta" % i), w], timeout=120)
+        obs["extra_derive_compiles"] = 1
+        bad_traits = set(re.findall(r"error\[E0277\]: the trait bound `[^`]*: (?:\w+::)*(\w+)` is not satisfied", ser))
+        bad_traits |= set(re.findall(r"error\[E0277\]: `[^`]*` doesn't implement `(?:\w+::)*(\w+)`", ser))
+        bad_traits |= set(re.findall(r"error\[E0277\]: can't compare `[^`]*`", ser) and ["PartialEq", "PartialOrd"])
+        hit = [(rn, t) for rn, t in extra if t in bad_traits]
+        if rcr != 0 and hit:
+            problems.append("traits derived although a constituent does not implement them (rustc E0277 on the bindings as emitted): %s\n%s" % (
+                hit[:6], "\n".join(re.findall(r"^error\[E0277\][^\n]*", ser, re.M)[:3])))
+        else:
+            notes.append("derives beyond my specification (rustc accepts them): %s" % extra[:4])
     if problems:
         return Verdict(VIOLATED, name, "\n".join(problems), files=files, obs=obs)
     if notes:
